@@ -415,6 +415,7 @@ def check(ctx):
     o = Ob('C02.7', 'K2+K6', 'Source: hand-over only on the false edge of `remaining parts < 1`; produced counter +1 exactly on the '
                              'paths where the output left; budget adjustment clamped at the produced count')
     obs.append(o)
+    dv.check_defaults(ctx, o, [('Source', '__init__', 'starting_parts')])
     if P.has_cls('Source'):
         source_budget(ctx, o)
 
